@@ -167,7 +167,7 @@ Definition chunk_step (c : cst) (body : bytes) (b : bytes) : stage (cst * bytes 
 
 (* ---------- head interpretation shared by request and response ---------- *)
 Definition is_chunked (h : hdrs) : bool :=
-  ustr_eqb (lower (hget_str h "transfer-encoding")) (str "chunked").
+  ustr_eqb (lower (strip_with is_uspace (hget_str h "transfer-encoding"))) (str "chunked").
 
 (* int(Content-Length) under `except ValueError`: None when not a
    non-negative integer *)
